@@ -94,7 +94,9 @@ class PruneGen:
                   "unpacked_fragment", "unused_fragment", "nowhere", "root_arg_literal", "result_and_input",
                   # enums that occur ONLY as argument types of a field of an interface / of a type reachable only
                   # through a union: no operation needs them, the operation-builder modules (custom ops) do
-                  "iface_field_arg", "union_member_field_arg"]
+                  "iface_field_arg", "union_member_field_arg",
+                  # enums whose only use is the type of a variable of a SUBSCRIPTION operation
+                  "subscription_variable"]
         r.shuffle(routes)
         n_enum = r.randint(3, len(routes))
         enums = {}
@@ -171,10 +173,28 @@ class PruneGen:
         # root fields: one per input (arg), one per variable-route enum, some plain
         q = ["  mid: Mid", "  node: Node", "  any2: Any2", "  plain: Int", "  container: Container"]
         self.root_in = {}
+        # not every input is an argument of a Query field: the others are reachable only as the argument of a
+        # Subscription field or of an executable directive (the operation-builder modules cover neither)
+        self.sub_in, self.dir_in = {}, {}
+        sub_fields, directive_defs = [], []
         for i, name in enumerate(ins):
-            fname = f"by{name}"
-            q.append(f"  {fname}(arg: " + r.choice(["{}", "{}!", "[{}!]"]).format(name) + "): Mid")
-            self.root_in[name] = fname
+            how = r.choice(["query", "query", "query", "subscription", "directive"])
+            if how == "query":
+                fname = f"by{name}"
+                q.append(f"  {fname}(arg: " + r.choice(["{}", "{}!", "[{}!]"]).format(name) + "): Mid")
+                self.root_in[name] = fname
+            elif how == "subscription":
+                t = r.choice(["{}", "{}!"]).format(name)
+                sub_fields.append(f"  on{name}(arg: {t}): Int")
+                self.sub_in[name] = (f"on{name}", t)
+            else:
+                directive_defs.append(f"directive @tag{name}(by: {name}) on FIELD")
+                self.dir_in[name] = f"tag{name}"
+        self.sub_enum = {}
+        for e in by_route.get("subscription_variable", []):
+            t = r.choice(["{}", "{}!", "[{}!]"]).format(e)
+            sub_fields.append(f"  watch{e}(e: {t}): Int")
+            self.sub_enum[e] = (f"watch{e}", t)
         self.root_var_enum = {}
         for e in by_route.get("variable", []):
             fname = f"with{e}"
@@ -187,6 +207,9 @@ class PruneGen:
             self.root_lit_enum[e] = fname
         lines.append("scalar DateTime\n\nscalar Stamp\n\nscalar Money\n\nscalar Upload")
         lines.append("type Query {\n" + "\n".join(q) + "\n}")
+        if sub_fields:
+            lines.append("type Subscription {\n" + "\n".join(sub_fields) + "\n}")
+        lines.extend(directive_defs)
         if ins and r.random() < 0.5:
             self.mut_in = r.choice(ins)
             lines.append(f"type Mutation {{\n  change(input: {self.mut_in}!, dry: Boolean = false): Mid\n}}")
@@ -197,9 +220,10 @@ class PruneGen:
         self.ins, self.g, self.enums, self.by_route = ins, g, enums, by_route
         ops, frags = [], []
         used_inputs = []
-        if ins:
+        rooted = [n_ for n_ in ins if n_ in self.root_in]
+        if rooted:
             k = r.choice([0, 1, 1, 2, 3])
-            used_inputs = r.sample(ins, min(k, len(ins)))
+            used_inputs = r.sample(rooted, min(k, len(rooted)))
         mix = by_route.get("mixin_fragment", [])
         unp = by_route.get("unpacked_fragment", [])
         unu = by_route.get("unused_fragment", [])
@@ -260,8 +284,22 @@ class PruneGen:
             ops.append("query GetAny { any2 { __typename " + " ".join(parts) + " } }")
         if self.mut_in and r.random() < 0.7:
             ops.append(f"mutation Change($input: {self.mut_in}!) {{ change(input: $input) {{ id }} }}")
+        for name, (fname, t) in self.sub_in.items():
+            if r.random() < 0.7:
+                n += 1
+                ops.append(f"subscription OnIn{n}($s: {t}) {{ {fname}(arg: $s) }}")
+        for e, (fname, t) in self.sub_enum.items():
+            n += 1
+            ops.append(f"subscription Watch{n}($e: {t}) {{ {fname}(e: $e) }}")
+        for name, dname in self.dir_in.items():
+            if r.random() < 0.7:
+                n += 1
+                ops.append(f"query Tagged{n}($t: {name}) {{ plain @{dname}(by: $t) }}")
         if r.random() < 0.15:
             ops = [o for o in ops if "$" not in o] or ["query Plain { plain }"]
+        # the order of the operations in the queries file is arbitrary (which one is LAST matters to the
+        # accumulation of used enums)
+        r.shuffle(ops)
         # every spread fragment must be defined; unused ones stay
         r.shuffle(frags)
         queries = "\n\n".join(ops + frags) + "\n"
@@ -287,6 +325,10 @@ def make(seed: int, tries: int = 30) -> Scenario:
             continue
         r = g.r
         cfg = {"convert_to_snake_case": r.random() < 0.7, "async_client": r.random() < 0.5}
+        if "subscription " in queries:
+            cfg["async_client"] = True      # a synchronous client refuses subscriptions (documented refusal)
+        notes["subscriptions"] = queries.count("subscription ")
+        notes["directive_argument_variables"] = queries.count("query Tagged")
         # mostly all three configured; sometimes a subset (an unconfigured custom scalar is typed Any: no import)
         names = list(SCALAR_CFGS) if r.random() < 0.75 else r.sample(list(SCALAR_CFGS), r.randint(0, 2))
         cfg["scalars"] = {n: dict(SCALAR_CFGS[n]) for n in names}
@@ -312,3 +354,25 @@ def deep_scalar_regression() -> Scenario:
     return Scenario(seed=-7, sdl=sdl, queries=queries, config=cfg, features=("prune",), files={"scalars_impl.py": SCALARS_PY},
                     notes={"shape": "deep-scalar-regression", "routes": {}, "ops_with_variables": 1, "n_inputs": 4,
                            "scalar_fields": 2, "scalars_configured": 1})
+
+
+def last_operation_enum_regression() -> Scenario:
+    """an enum used ONLY as the type of a variable of the last (here: the only) operation"""
+    sdl = ("enum Mood { HAPPY SAD }\nenum Other { A B }\ntype Query { plain: Int feel(m: Mood, o: Other): Int }\n")
+    return Scenario(seed=-6, sdl=sdl, queries="query First($o: Other) { feel(o: $o) }\n\nquery Last($m: Mood!) { feel(m: $m) }\n",
+                    config={}, features=("prune",), files={"scalars_impl.py": SCALARS_PY},
+                    notes={"shape": "last-operation-enum-regression", "routes": {}, "ops_with_variables": 2, "n_inputs": 0,
+                           "scalar_fields": 0, "scalars_configured": 0})
+
+
+def subscription_input_regression() -> Scenario:
+    """an input (with its dependency and enum) used only by a subscription variable and one only by a directive
+    argument; a Query field takes another input (the operation builder covers only that one)"""
+    sdl = ("enum Level { LOW HIGH }\ninput Inner { level: Level }\ninput SubFilter { inner: Inner name: String }\n"
+           "input TagIn { x: Int }\ninput QIn { y: Int }\ndirective @tag(by: TagIn) on FIELD\n"
+           "type Query { plain: Int q(a: QIn): Int }\ntype Subscription { ticks(f: SubFilter): Int }\n")
+    queries = ("subscription Ticks($f: SubFilter) { ticks(f: $f) }\n\nquery Tagged($t: TagIn) { plain @tag(by: $t) }\n")
+    return Scenario(seed=-5, sdl=sdl, queries=queries, config={"async_client": True}, features=("prune",),
+                    files={"scalars_impl.py": SCALARS_PY},
+                    notes={"shape": "subscription-input-regression", "routes": {}, "ops_with_variables": 2, "n_inputs": 4,
+                           "scalar_fields": 0, "scalars_configured": 0})
